@@ -37,7 +37,9 @@ def snap(x, depth=0):
     if hasattr(x, "data") and isinstance(getattr(x, "data"), list):
         return ("obj", type(x).__name__, tuple(snap(v, depth + 1) for v in x.data))
     if hasattr(x, "real") and hasattr(x, "dual") and type(x).__name__.endswith("DualQuaternion"):
-        return ("dq", snap(x.real), snap(x.dual))
+        # attribute by attribute, with the class of each part (re-binding a part to an object of another class is a
+        # modification of the receiver even when the numbers agree)
+        return ("dq", type(x).__name__, tuple((k, type(v).__name__, snap(v, depth + 1)) for k, v in sorted(vars(x).items())))
     return ("py", repr(x))
 
 
@@ -192,6 +194,107 @@ def operator_part(j, cells):
             else:
                 j.ok(cid)
     return len(seen)
+
+
+def method_part(j, cases):
+    """every cell of the per-value method / broadcasting table (Dispatch, the cases of C09): methods that take
+    arguments and keyword options (interp with start / dest / shortest, angle accessors with unit and order, the
+    conversions) with single- and multi-valued receivers; receiver, operands and keyword objects unchanged, and the
+    same call evaluated twice returns the same thing"""
+    seen = set()
+    for e in cases:
+        key = (e["op"], e["l"]["c"], e["l"]["n"], e["r"]["c"], e["r"]["n"], e["r"].get("opt", ""))
+        if key in seen:
+            continue
+        seen.add(key)
+        try:
+            full, one, operands = c09.build_call(e)
+        except Exception:  # noqa: BLE001  (cells whose operands cannot be built are other properties' subject)
+            continue
+        before = [snap(o) for o in operands]
+        try:
+            r1 = full()
+        except Exception:  # noqa: BLE001
+            r1 = "raise"
+        op, opt = e["op"], e["r"].get("opt", "")
+        cid = ("method", op, e["l"]["c"], opt)
+        site = "%s.%s" % (e["l"]["c"], "__or__" if op == "|" else op)
+        feat = "%s%s;len(%d,%d)" % (e["r"]["c"], ("[" + opt + "]") if opt else "", e["l"]["n"], e["r"]["n"])
+        after = [snap(o) for o in operands]
+        if after != before:
+            which = [i for i, (x, y) in enumerate(zip(before, after)) if x != y]
+            j.fail("%s|%s|%s|operand-modified" % (PID, site, feat), {"kind": "method", "case": e, "operands_changed": which}, cid)
+            continue
+        try:
+            r2 = full()
+        except Exception:  # noqa: BLE001
+            r2 = "raise"
+        if (isinstance(r1, str) != isinstance(r2, str)) or (not isinstance(r1, str) and not same_result(r1, r2)):
+            j.fail("%s|%s|%s|not-deterministic" % (PID, site, feat), {"kind": "method", "case": e}, cid)
+        else:
+            j.ok(cid)
+    return len(seen)
+
+
+def dq_part(j):
+    """dual quaternions (no list interface): every public member and operator, on receivers obtained in every
+    documented way (from a pose, from two quaternions, as results of products) - receiver and operands unchanged"""
+    from spatialmath import SE3, Quaternion, UnitQuaternion
+    from spatialmath.DualQuaternion import DualQuaternion, UnitDualQuaternion
+    import spatialmath.base as b
+
+    def receivers():
+        T = SE3(1, 2, 3) * SE3.Rx(0.3) * SE3.Ry(-0.5)
+        u = UnitDualQuaternion(T)
+        out = {"UnitDualQuaternion(SE3)": u,
+               "UnitDualQuaternion(Quaternion,Quaternion)": UnitDualQuaternion(Quaternion(u.real.vec), Quaternion(u.dual.vec)),
+               "UnitDualQuaternion(UnitQuaternion,Quaternion)": UnitDualQuaternion(UnitQuaternion(u.real.vec), Quaternion(u.dual.vec)),
+               "DualQuaternion(Quaternion,Quaternion)": DualQuaternion(Quaternion([1, 2, 3, 4]), Quaternion([0.5, -1, 2, 0.25])),
+               "DualQuaternion.Pure": DualQuaternion.Pure([1.0, -2.0, 0.5]),
+               "UnitDualQuaternion*UnitDualQuaternion": u * UnitDualQuaternion(SE3(0, 1, -1) * SE3.Rz(1.1)),
+               "UnitDualQuaternion*DualQuaternion": u * DualQuaternion(Quaternion(b.unit([1, 2, 3, 4])), Quaternion([0, 0, 0, 0])),
+               "DualQuaternion.conj": DualQuaternion(Quaternion([1, 2, 3, 4]), Quaternion([0.5, -1, 2, 0.25])).conj(),
+               "UnitDualQuaternion.conj": u.conj()}
+        return out
+    n = 0
+    names0 = sorted(receivers())
+    for rname in names0:
+        x0 = receivers()[rname]
+        members = [a for a in dir(type(x0)) if not a.startswith("_")] + ["__repr__", "__str__"]
+        for name in members:
+            attr = inspect.getattr_static(type(x0), name, None)
+            if isinstance(attr, (classmethod, staticmethod)):
+                continue
+            x = receivers()[rname]
+            before = snap(x)
+            cid = ("dq", type(x).__name__, name)
+            try:
+                v = getattr(x, name)
+                if callable(v):
+                    v()
+            except Exception:  # noqa: BLE001
+                pass
+            n += 1
+            if snap(x) != before:
+                j.fail("%s|%s.%s|%s|receiver-modified" % (PID, type(x).__name__, name, rname), {"kind": "dq", "receiver": rname, "member": name}, cid)
+            else:
+                j.ok(cid)
+        for oname, fn in (("*", operator.mul), ("+", operator.add), ("-", operator.sub)):
+            for rname2 in names0:
+                x, y = receivers()[rname], receivers()[rname2]
+                bx, by = snap(x), snap(y)
+                cid = ("dq", type(x).__name__, oname, type(y).__name__)
+                try:
+                    fn(x, y)
+                except Exception:  # noqa: BLE001
+                    pass
+                n += 1
+                if snap(x) != bx or snap(y) != by:
+                    j.fail("%s|%s%s|%s;%s|operand-modified" % (PID, type(x).__name__, oname, rname, rname2),
+                           {"kind": "dq", "left": rname, "right": rname2, "op": oname}, cid)
+                else:
+                    j.ok(cid)
+    return n
 
 
 # ---- (c) reflection over methods and properties ------------------------------------------------
@@ -404,7 +507,10 @@ def run(tier):
     n_api += matrix_part(j, [e for e in ra.json if "call" in e])
     rd = run_tlc("MC_Dispatch", "Dispatch_c08", timeout=300)
     n_op = operator_part(j, rd.json)
+    rd9 = run_tlc("MC_Dispatch", "Dispatch_c09", timeout=300)
+    n_meth = method_part(j, rd9.json)
     n_ref = reflection_part(j)
+    n_ref += dq_part(j)
     rsmall = run_tlc("MC_SpatialMath", "SpatialMath_small", timeout=900)
     nsim = 400 if thorough else 50
     rs = run_tlc("MC_SpatialMath", "SpatialMath_sim", workers=1, simulate=nsim, depth=26,
@@ -449,9 +555,9 @@ def run(tier):
             pass
     cov = {"states": ra.distinct + rd.distinct + rsmall.distinct + rsh.distinct,
            "transitions": ra.generated + rd.generated + rsmall.generated + rs.generated + rsh.generated,
-           "traces_validated_against_impl": n_api + n_op + n_ref + len(rs.json) + n_sh,
+           "traces_validated_against_impl": n_api + n_op + n_meth + n_ref + len(rs.json) + n_sh,
            "sharing_behaviours_depth3": n_sh, "sharing_behaviours_depth4_sampled": n_sh4,
-           "api_calls": n_api, "operator_cells": n_op, "reflected_members": n_ref,
+           "api_calls": n_api, "operator_cells": n_op, "method_cells": n_meth, "reflected_members": n_ref,
            "heap_behaviours": len(rs.json), "heap_behaviours_replayed_to_the_end": complete,
            "heap_model_small_exhaustive": rsmall.stats(),
            "rule": "case = (callable, container form) | (operator, left class, right class, plain/augmented) | "
